@@ -179,7 +179,8 @@ Definition sstep (st : sstate) (l : slabel) : soutcome :=
     end
   | LInsert idx serial id =>
     if amem idx (slab st) then SStuck 1          (* the slab hands out vacant slots only *)
-    else if amem id (ids st) then SPanic 1       (* assert!(self.ids.insert(id, index).is_none()) *)
+    else if amem id (ids st) then SStuck 10      (* assert!(self.ids.insert(id, index).is_none()): ids handed out by Send::open /
+                                                    Recv::open / find_entry(Vacant) are new; that discipline is not modelled here *)
     else SOk (set_ids (set_slab st ((idx, new_rec serial id) :: slab st)) ((id, idx) :: ids st)) []
   | LUnlink id => SOk (set_ids st (adel id (ids st))) []
   | LRemove k =>
